@@ -85,7 +85,7 @@ _RE_SIMSTATES = re.compile(r"^The number of states generated: (\d+)")
 
 
 def run(module, cfg_text, *, workers=16, simulate=None, depth=None, seed=None, coverage=False,
-        timeout=3600, extra_files=None, env_extra=None, want_records=True, heap="8g",
+        timeout=3600, extra_files=None, env_extra=None, want_records=True, heap="4g",
         dfs=False, keep_stdout=False, record_prefix='"{', extra_args=()):
     """Run TLC on spec/<module>.tla with the given cfg text.
 
